@@ -276,7 +276,8 @@ def execute(pack, fc, hist, seed, pid=PID, ch=None, fixed=None, enc="direct"):
                 ackpl = bytes(oks[-1][2] or b"") if oks else b""
                 exps.append(False if not oks else (ackpl if (mode == "ackpl" and not so and ackpl) else True))
             norm = [bytes(x) if isinstance(x, (bytes, bytearray)) else x for x in rets]
-            if norm != exps and sorted(map(repr, norm)) == sorted(map(repr, exps)):
+            # (two booleans swapped cannot be told from two inverted results: left to the element check)
+            if norm != exps and sorted(map(repr, norm)) == sorted(map(repr, exps)) and not all(isinstance(x, bool) for x in norm):
                 viol = V("list-order", "list", "send(list) returned %s, the payloads' fates in order are %s" % (show(ret), show(exps)))
                 outcomes.append("L:order")
                 break
